@@ -69,13 +69,14 @@ SameHeader(x, y) ==
 \* extensions), and the independent parser reads the same value back from them
 SerOk(a, q) == q.sok /\ q.b \in SerAlts(a) /\ Presents(ParseHeader(q.b), a)
 \* C11 "serialising any header and parsing it back yields the same header and length"
-\* (the `len` attribute of a parsed selective ACK is judged separately, ctx "sack-len")
+\* (the `len` attribute of the selective ACK is judged under its own context "sack-len", so that a
+\* regression there is attributable; it must hold like every other rule)
 RtOk(a, q) == /\ q.sok /\ q.ok2
               /\ q.h2.hlen = Len(q.b)
               /\ SameHeader(q.h2, a)
               /\ (q.eq \/ a.sl # q.h2.sl)
-RtLenApplicable(a, q) == q.sok /\ q.ok2 /\ a.hs /\ ~a.hc /\ q.h2.hs
-RtLenOk(a, q) == a.sl = q.h2.sl
+RtLenApplicable(a, q) == q.sok /\ q.ok2 /\ a.hs /\ q.h2.hs
+RtLenOk(a, q) == RtLenApplicable(a, q) => a.sl = q.h2.sl    \* total: q has no h2 after a panic
 (* Header values that carry both extensions are judged under their own     *)
 (* context, so that a finding there cannot hide one elsewhere.             *)
 ExtCtx(a) == IF a.hs /\ a.hc THEN "both-ext" ELSE ""
